@@ -209,8 +209,8 @@ func ctlCandidates(ctl string) []string {
 			keep.Params = d.Params[:len(d.Params)-1]
 			splice(d.Start, d.HeadEnd, "~"+paramText(&keep)+modStr(d)+string(d.Raw))
 			for i := range d.Params {
-				if d.Params[i].Kind == 0 || d.Params[i].Kind == 'v' {
-					continue
+				if d.Params[i].Kind == 0 {
+					continue // (a blanked v goes with the dropped argument the caller tries)
 				}
 				k2 := *d
 				k2.Params = append([]ref.Param{}, d.Params...)
@@ -231,6 +231,9 @@ func paramText(d *ref.Dir) string {
 		switch p.Kind {
 		case 'n':
 			parts[i] = itoa(p.N)
+			if p.Plus {
+				parts[i] = "+" + parts[i]
+			}
 		case 'c':
 			parts[i] = "'" + string(p.C)
 		case 'v':
@@ -458,6 +461,9 @@ func syntacticFeatures(ctl string, base int, fs map[string]bool) {
 			}
 			if p.Kind == 'v' && p.C == 'V' {
 				fs["upper-case-V"] = true
+			}
+			if p.Kind == 'n' && p.Plus {
+				fs["plus-sign-param"] = true
 			}
 		}
 		switch d.Ch {
@@ -704,7 +710,7 @@ func openConstruct(f string) bool {
 var emitting = os.Getenv("VERIF_EMIT") != ""
 
 var featurePriority = []string{
-	"quoted-param-char", "upper-case-V", "nested-same-block-with-param", "nested-iteration-closed-by-colon",
+	"quoted-param-char", "upper-case-V", "plus-sign-param", "nested-same-block-with-param", "nested-iteration-closed-by-colon",
 	"nested-same-block-then-directive", "clause-separator-then-directive", "tilde-with-param-in-block", "caret", "radix-R",
 	"v-nil-on-simple-directive", "recursive-nil-arglist", "conditional-bignum", "tab-colinc-0", "tab-colinc",
 	"tab-default-colnum", "tab-in-block", "fresh-line-in-block", "english-lowest-group-000", "english-quintillion",
